@@ -218,13 +218,27 @@ pub fn run(runner: &mut Runner, data_dir: &str, shapes: Option<&str>, seed: u64,
         let mut v: Vec<String> = vec!["ATAT", "TRBA", "MCVX", "SEQ2", "CBF1", "C09A", "C18V", "B09F", "PC12", "PC00", "", "A", "ATATA", "c09a", "C09W", "PCAB", "C\u{e9}9", "\u{1F600}", "PC\u{661}\u{662}"]
             .into_iter().map(String::from).collect();
         for b in a16_boards() { v.push(format!("C{}0", b.name())); }
+        // every 4-byte string made of up to three of these pieces (multi-byte characters at every offset)
+        let atoms = ["P", "C", "B", "A", "T", "0", "9", "1", "é", "¹", "\u{661}", "ß", "Ā"];
+        for a in atoms {
+            for b in atoms {
+                for c in atoms {
+                    for s in [format!("{a}{b}"), format!("{a}{b}{c}")] {
+                        if s.len() == 4 && !v.contains(&s) {
+                            v.push(s);
+                        }
+                    }
+                }
+            }
+        }
         v
     };
     for ci in 0..nrandom {
         let nb = rng.gen_range(0..6);
         let banks: Vec<BankB> = (0..nb)
-            .map(|_| {
-                let name = names.choose(&mut rng).unwrap().clone();
+            .map(|bk| {
+                // the first bank of event ci walks through the whole name list, the others are drawn
+                let name = if bk == 0 { names[ci as usize % names.len()].clone() } else { names.choose(&mut rng).unwrap().clone() };
                 let len = *[0usize, 1, 15, 16, 17, 28, 35, 36, 56, 79, 80, 81, 164, 200].choose(&mut rng).unwrap();
                 let mut data: Vec<u8> = (0..len).map(|_| rng.gen()).collect();
                 if rng.gen_bool(0.3) && len >= 2 {
